@@ -156,6 +156,9 @@ def special_types():
         obj("One", [field("only", S)], PKG),
         obj("Four", [field("fooBar", S), field("type", I), field("b", prim("BOOLEAN")), field("last_one", D), field("opt", opt(S)), field("xs", lst(I))], PKG),
         obj("AllOptional", [field("a", opt(S)), field("b", lst(S)), field("c", st(S)), field("d", mp(S, S)), field("e", R("AliasOpt")), field("f", R("AliasList")), field("g", opt(R("AliasList")))], PKG),
+        # the three spellings Conjure admits for member names
+        obj("Cases", [field("kebab-field", S), field("snake_field", I), field("camelField", opt(S)), field("x2y", lst(I)), field("a-b-c", opt(D))], PKG),
+        union("CasesU", [field("kebab-variant", S), field("snake_variant", I), field("camelVariant", R("Cases"))], PKG),
         # enums: 0 / 1 / 3 values, one named UNKNOWN
         enum("Enum1", ["SOLE"], PKG),
         enum("Enum3", ["ONE", "TWO_2", "UNKNOWN_VALUE"], PKG),
